@@ -1065,3 +1065,5 @@ def _run(world: World, plan, restore):
     kept.clear()
     return common.finish(world, nontrivial, [sig_steps, sorted(sig_queries), fault_state['fired'],
                                              fault.get('at') if fault else None])
+
+INFO['rule'] += ' Round-5 additions: step reload = load_data() once more on the same manager (model: exactly the configured directories, nothing indexed).'
